@@ -24,3 +24,9 @@ pub mod c02;
 pub mod c07;
 #[cfg(feature = "c03")]
 pub mod c03;
+#[cfg(feature = "c05")]
+pub mod c05;
+#[cfg(feature = "c04")]
+pub mod c04;
+#[cfg(feature = "c16")]
+pub mod c16;
